@@ -38,7 +38,7 @@ Example ex_offset_identifies : forall c, In c [gz08; gz10; plain10; zstd21] ->
     log_lookup 4294967339 (append_records 4294967337 (decoded_view r)) =
       Some (mkEntry (Some [107]) (Some []) [] (if v0_10 c then Some 1600000000003000000 else None)).
 Proof.
-  intros c [<-|[<-|[<-|[<-|[]]]]]; vm_compute; eexists; eexists; eexists; repeat split.
+  intros c [<-|[<-|[<-|[<-|[]]]]]; eexists; eexists; eexists; repeat split; vm_compute; reflexivity.
 Qed.
 
 Example ex_headers :
@@ -47,7 +47,7 @@ Example ex_headers :
     map snd (append_records 7 (decoded_view r)) =
       [mkEntry None (Some [49]) [mkHeader (Some [104]) None; mkHeader (Some []) (Some [1; 2])] (Some T0);
        mkEntry (Some []) None [] (Some (T0 - 2000000))].
-Proof. vm_compute. eexists; eexists; repeat split. Qed.
+Proof. cbv zeta. eexists; eexists; repeat split; vm_compute; reflexivity. Qed.
 
 (* routing: writable partitions [1; 2] (partition 0 has no leader), the partitioner answers index 1: partition 2 on the
    first pass, kept on two retries whatever the metadata and the partitioner would say then *)
@@ -68,7 +68,7 @@ Example ex_guarded :
   held (0, 2) (bs_set (bp_run zstd21 healthy [BRecv (0, 2) syn_marker; BRecv (0, 2) (mk 1 None (Some [49]) [] T0); BDrop (0, 2);
                           BRecv (0, 2) (mk 2 None (Some [50]) [] T0); BRecv (0, 2) fin_marker; BRecv (0, 2) syn_marker;
                           BRecv (0, 2) (mk 2 None (Some [50]) [] T0)])) = [mk 2 None (Some [50]) [] T0].
-Proof. vm_compute. repeat split; auto. Qed.
+Proof. split; vm_compute; [repeat split; auto | reflexivity]. Qed.
 
 (* The refuted statement.  A chaser (fin) that reaches a broker worker which is neither closing nor retrying the
    partition goes on to buffer.add, is sent as a record with nil key and nil value, and the leader appends it: the log
@@ -81,7 +81,7 @@ Theorem marker_accepted_witness :
   held (0, 2) (bs_set st) = [fin_marker] /\
   exists x r, part_lookup (0, 2) (s_parts (bs_set st)) = Some x /\ build_part zstd21 x = Some r /\
     append_records 1004 (decoded_view r) = [(1004, mkEntry None None [] (Some 1600000000000000000))].
-Proof. vm_compute. repeat split. eexists; eexists; repeat split. Qed.
+Proof. cbv zeta. repeat split; try (vm_compute; reflexivity). eexists; eexists; repeat split; vm_compute; reflexivity. Qed.
 
 Theorem buffer_data_only_refuted :
   ~ (forall c st evs, data_only st -> data_only (bp_run c st evs)).
